@@ -9,6 +9,7 @@ package main
 
 import (
 	"fmt"
+	"sort"
 	"strings"
 	"sync"
 	"time"
@@ -320,4 +321,111 @@ func c07Run(c *Ctx, s c07Script, stream uint64) {
 		return
 	}
 	r.Sample(3, map[string]any{"script": s.Name, "trace": trace})
+}
+
+// c07Dropped: writes WITH a ttl are dropped because the write buffer is full (SetWithTTL returns false); writes
+// WITHOUT a ttl issued right afterwards - updates of resident keys while the buffer is still full, then fresh keys
+// once it has drained - must never expire: GetTTL == (0, true), and they stay retrievable long after the dropped
+// writes' expiration would have passed (ample capacity).
+func c07Dropped(c *Ctx, setbuf int, stream uint64) {
+	r := c.R
+	r.Eval(1)
+	name := fmt.Sprintf("c07-dropped-ttl-writes-buf%d", setbuf)
+	c.J.Case(name)
+	const nres, nfresh, ndrop = 4, 4, 8
+	cfg := lab.CacheCfg{NumCounters: 1000, MaxCost: 1000, BufferItems: 64, IgnoreInternalCost: true, KeyKind: "uint64", NKeys: nres + nfresh + ndrop + 1, TTLTick: 1, SetBuf: setbuf}
+	l, err := lab.NewLab(cfg)
+	if err != nil {
+		r.Inconc(1)
+		return
+	}
+	defer l.Forget()
+	defer l.C.Close()
+	cl := l.NewClient()
+	fail := func(sig, d string) { r.Violate("C07/"+sig, fmt.Sprintf("[%s] %s", name, d), name) }
+	for k := 0; k < nres; k++ {
+		cl.Set(k, cl.NextVal(k), 1, 0)
+	}
+	ctlKey := cfg.NKeys - 1
+	cl.Set(ctlKey, cl.NextVal(ctlKey), 1, 0)
+	cl.Wait()
+	gate := lab.NewGate(l)
+	defer gate.Open()
+	cl.Set(ctlKey, cl.NextVal(ctlKey), 1, 0)
+	if err := gate.AwaitHeld(); err != nil {
+		r.Inconc(1)
+		return
+	}
+	// fill the buffer with updates of the control key (an update that does not fit is dropped silently)
+	for i := 0; i < setbuf+2; i++ {
+		cl.Set(ctlKey, cl.NextVal(ctlKey), 1, 0)
+	}
+	const ttl = 300 * time.Millisecond
+	want := map[int]uint64{}
+	dropped := 0
+	for i := 0; i < ndrop; i++ {
+		dk := nres + nfresh + i
+		if !cl.Set(dk, cl.NextVal(dk), 1, ttl) {
+			dropped++
+		}
+		// a resident key re-written without ttl right after the dropped write (applied to the store at once)
+		k := i % nres
+		v := cl.NextVal(k)
+		if cl.Set(k, v, 1, 0) {
+			want[k] = v
+		}
+	}
+	r.Obs("c07_dropped_ttl_writes", int64(dropped))
+	if dropped == 0 {
+		r.Inconc(1)
+		return
+	}
+	tDrop := time.Now()
+	check := func(when string, keys []int) bool {
+		for _, k := range keys {
+			v, ok := cl.Get(k)
+			if !ok || v != want[k] {
+				fail("hidden-without-ttl/get", fmt.Sprintf("%s: Get(key %d) = (%#x, %v), want (%#x, true): written without a ttl after %d writes with ttl %v had been dropped on a full write buffer", when, k, v, ok, want[k], dropped, ttl))
+				return false
+			}
+			if d, ok := cl.GetTTL(k); !ok || d != 0 {
+				fail("ttl-on-item-without-ttl", fmt.Sprintf("%s: GetTTL(key %d) = (%v, %v), want (0, true): written without a ttl after %d writes with ttl %v had been dropped", when, k, d, ok, dropped, ttl))
+				return false
+			}
+			r.Obs("c07_no_ttl_observations", 1)
+		}
+		return true
+	}
+	var res []int
+	for k := range want {
+		res = append(res, k)
+	}
+	sort.Ints(res)
+	if !check("buffer still full", res) {
+		return
+	}
+	gate.Open()
+	cl.Wait()
+	for i := 0; i < nfresh; i++ {
+		// again a dropped-size burst is not needed: the envelopes of the dropped writes are what matters
+		k := nres + i
+		v := cl.NextVal(k)
+		if cl.Set(k, v, 1, 0) {
+			want[k] = v
+			res = append(res, k)
+		}
+	}
+	cl.Wait()
+	if !check("after the buffer drained", res) {
+		return
+	}
+	time.Sleep(time.Until(tDrop.Add(ttl + 250*time.Millisecond)))
+	if !check("after the dropped writes' ttl has elapsed", res) {
+		return
+	}
+	n := len(cl.IterValues(-1))
+	if n < len(res) {
+		fail("hidden-without-ttl/iter", fmt.Sprintf("IterValues yields %d values, %d keys without ttl are resident", n, len(res)))
+	}
+	r.DistinctKey("%s/dropped%d/res%d", name, min(dropped, 3), len(res))
 }
